@@ -191,6 +191,22 @@ def _arena_pipeline(tier, focus, variants, key):
     # this is the configuration on which TLC found the defect fixed by /repo 5e73d20)
     mc2 = tlc("MC_Arena", "MC_Arena_prepfail.cfg", workers=6, timeout=900, xmx="6g")
     require_ok(mc2, "MC_Arena_prepfail")
+    # focused configuration: growable vectors (BumpVec as a client of allocate / grow / shrink_slice / deallocate) interleaved
+    # with plain allocations and scopes, deeper than the general relation
+    if thorough:
+        txt = open(os.path.join(SPEC, "MC_Arena_vec.cfg")).read().replace("MaxOps = 5", "MaxOps = 6")
+        gen = ".gen_MC_Arena_vec_%d.cfg" % os.getpid()
+        with open(os.path.join(SPEC, gen), "w") as f:
+            f.write(txt)
+        try:
+            mc3 = tlc("MC_Arena", gen, workers=10, timeout=3000, xmx="12g")
+        finally:
+            os.unlink(os.path.join(SPEC, gen))
+    else:
+        mc3 = tlc("MC_Arena", "MC_Arena_vec.cfg", workers=8, timeout=900, xmx="8g")
+    require_ok(mc3, "MC_Arena_vec")
+    mc2.distinct += mc3.distinct
+    mc2.generated += mc3.generated
     return _arena_pipeline_rest(tier, focus, variants, key, t0, thorough, wd, bins, mc, mc2)
 
 
@@ -212,14 +228,15 @@ def _arena_pipeline_rest(tier, focus, variants, key, t0, thorough, wd, bins, mc,
         raise ToolError("TLC saw %d records, replayer wrote %d" % (checked, stats["lines"]))
     bad = {p: tagged_index_sets(results, parts, "BAD_" + p) for p in ARENA_PROPS}
     drift = tagged_index_sets(results, parts, "DRIFT")
-    counters = {k: tagged_int(results, k) for k in ("N_EXIT", "N_REALLOC", "N_NEWCHUNK", "N_RECLAIM", "N_FAIL", "N_CLAIMED_OP", "N_ALIGNED", "N_REUSE", "N_PREP", "N_COMMIT", "N_PARTS", "N_AGAIN", "N_TRYWITH_ERR", "N_VALUE", "N_ITERMUT")}
+    aborted = tagged_index_sets(results, parts, "ABORTED")
+    counters = {k: tagged_int(results, k) for k in ("N_EXIT", "N_REALLOC", "N_NEWCHUNK", "N_RECLAIM", "N_FAIL", "N_CLAIMED_OP", "N_ALIGNED", "N_REUSE", "N_PREP", "N_COMMIT", "N_PARTS", "N_AGAIN", "N_TRYWITH_ERR", "N_VALUE", "N_ITERMUT", "N_VEC", "N_VEC_RELOC")}
     shutil.rmtree(d, ignore_errors=True)
     mc.out = mc.out[-4000:]
     if mc2 is not None:
         mc.distinct += mc2.distinct
         mc.generated += mc2.generated
     return {"wd": wd, "beh": beh, "obs": obs, "mc": mc, "nsim": nsim, "stats": stats, "crashes": crashes, "bad": bad,
-            "drift": drift, "checked": checked, "counters": counters, "wall": time.time() - t0, "variants": variants}
+            "drift": drift, "aborted": aborted, "checked": checked, "counters": counters, "wall": time.time() - t0, "variants": variants}
 
 
 def behaviour_by_id(beh_path, ids):
@@ -254,6 +271,7 @@ def check_arena_property(pid, tier, focus="general"):
         P = dict(P)
         P["crashes"] = P["crashes"] + F["crashes"]
         P["drift"] = P["drift"] + F["drift"]
+        P["aborted"] = P.get("aborted", []) + F.get("aborted", [])
         P["stats"] = {k: P["stats"][k] + F["stats"][k] for k in ("behaviours", "lines", "skipped")}
         P["checked"] += F["checked"]
         P["nsim"] += F["nsim"]
@@ -289,6 +307,11 @@ def check_arena_property(pid, tier, focus="general"):
         dr = nth_lines(P["obs"], [P["drift"][0][2]])
         log("MODEL-DRIFT %s: %d steps differ from the model's exact prediction, e.g. %s" %
             (pid, len(P["drift"]), json.dumps(list(dr.values())[0])[:600]))
+    if P.get("aborted"):
+        # the interpreter gave up on a behaviour (it could not execute a step): coverage is lost, nothing is decided
+        ab = nth_lines(P["obs"], [P["aborted"][0][2]])
+        log("MODEL-DRIFT %s: the interpreter aborted %d behaviours, e.g. %s" %
+            (pid, len(P["aborted"]), str(list(ab.values())[0]["o"].get("aborted"))[:300]))
     rc = out.finish()
     samples = [b for b in behaviour_by_id(P["beh"], [1, 2]).values()]
     for s in samples:
@@ -297,7 +320,8 @@ def check_arena_property(pid, tier, focus="general"):
         "states": max(P["mc"].distinct, 1), "transitions": max(P["mc"].generated, 1),
         "traces_validated_against_impl": P["stats"]["behaviours"],
         "samples": samples,
-        "steps_checked": P["checked"], "model_drift_steps": len(P["drift"]), "replayer_crashes": len(P["crashes"]),
+        "steps_checked": P["checked"], "model_drift_steps": len(P["drift"]), "behaviours_aborted_by_interpreter": len(P.get("aborted", [])),
+        "replayer_crashes": len(P["crashes"]),
         "behaviours_emitted": P["nsim"], "behaviours_skipped_not_compiled": P["stats"]["skipped"],
         "entry_point_variants": P["variants"].split(","), "counters": P["counters"], "focused_action_mix": P.get("focus_mix", "none"),
         **extra_cov,
